@@ -756,6 +756,27 @@ class Interp:
         cache = self.__dict__.setdefault('_hook_cache', {})
         if ci.qualname in cache:
             return cache[ci.qualname]
+        # the hooks run while the modules are imported, once per subclass in
+        # definition order; what they leave in shared containers depends on
+        # that order, so the first request runs them all in that order
+        owner = None
+        for c in self.prog.mro(ci)[1:]:
+            if isinstance(c, ClassInfo) and '__init_subclass__' in \
+                    c.bindings:
+                owner = c
+                break
+        if owner is not None and not self.__dict__.get('_hooks_all_' +
+                                                       owner.qualname):
+            self.__dict__['_hooks_all_' + owner.qualname] = True
+            subs = [c for c in self.prog.classes.values()
+                    if c is not owner and self.prog.is_subclass(c, owner)]
+            subs.sort(key=lambda c: (c.module.name != owner.module.name,
+                                     c.module.name, c.node.lineno))
+            for c in subs:
+                if c.qualname not in cache:
+                    self._hook_writes(c)
+            if ci.qualname in cache:
+                return cache[ci.qualname]
         cache[ci.qualname] = {}  # re-entrancy: literal values inside a hook
         hooks = []
         for c in self.prog.mro(ci)[1:]:
